@@ -103,5 +103,16 @@ func VerifC12_Crash() {
 		any = any || m
 	}
 	verifrt.Assert(any, "after restart the loaded data is one complete accepted list (previous or new), never partial or unaccepted")
+	// "complete" includes the store's own records: a location that counts as loaded can be refreshed
+	// (its locations record and signer are there), and the refreshed list takes effect
+	sNext := sym("s_next")
+	servers[url1] = &server{up: true, crl: newCRL("NEXT", "CN=I1", sNext)}
+	uerr := w.repo.UpdateCRL(loc, chainsOf(cert("CN=I1", sOld)))
+	verifrt.Assert(uerr == nil, "a location that is loaded after the restart can be refreshed (no record of the store is missing)")
+	if uerr == nil {
+		st, err := w.repo.IsRevoked(cert("CN=I1", sNext), loc)
+		verifrt.Assert(err == nil && st != nil && st.Revoked, "the refresh after the restart takes effect")
+		verifrt.Reach("refreshed-after-restart")
+	}
 	_ = filepath.Join
 }
